@@ -1719,7 +1719,8 @@ def run(ctx):
         ctx.fail('gen:compile', 'generated traces do not compile: ' + err[-800:], no_input=True)
         return
     ctx.prove('theories/Props/C03.v')
-    ctx.prove('theories/Props/C03_ode.v')     # trexp solves the ODE defining exp (Coquelicot derivatives; Model/C03_Ode.v)
+    ctx.prove('theories/Props/C03_ode.v')
+    ctx.prove('theories/Props/C03_series.v')  # Rodrigues = the exponential power series, entry by entry (Model/C03_Series.v)     # trexp solves the ODE defining exp (Coquelicot derivatives; Model/C03_Ode.v)
     with ctx.timed('correspond'):
         sym_num(ctx, g, MOD, 1500 if ctx.stats.get('tconst:restructured') else ctx.n(40, 1500))
     with ctx.timed('oracle'):
